@@ -163,6 +163,7 @@ fn c13_twins<A: Subject>(run: &Run, cfg: &Cfg, st: &Start, alphabet: &[Op], dept
   };
   loop {
     let word: Vec<Op> = idx.iter().map(|i| alphabet[*i]).collect();
+    crate::crashguard::set_case(crate::crashguard::head_of(&json!({"engine": "hist", "tag": "C13", "cfg": cfg, "start": st, "word": word, "oracles": O_RELEASE | O_SHADOW, "sync": A::SYNC, "unsync": !A::SYNC, "diff": false})));
     let mut rs: Vec<Runner<A>> = (0..3).map(|_| Runner::<A>::new(cfg).unwrap()).collect();
     let mut v = vec![];
     for r in rs.iter_mut() {
@@ -179,13 +180,18 @@ fn c13_twins<A: Subject>(run: &Run, cfg: &Cfg, st: &Start, alphabet: &[Op], dept
     for (k, op) in word.iter().enumerate() {
       let mut v0 = vec![];
       let o0 = rs[0].step(*op, O_RELEASE | O_SHADOW, &mut v0);
+      let case = json!({"engine": "hist", "tag": "C13", "cfg": cfg, "start": st, "word": word[..=k].to_vec(), "oracles": O_RELEASE | O_SHADOW, "sync": A::SYNC, "unsync": !A::SYNC, "diff": false});
+      if !v0.is_empty() {
+        // the history as written already misbehaves: report it and do not drive the twins further
+        for x in v0 {
+          run.violation(crate::report::Violation { property: "C13".into(), signature: format!("C13:{}:{}", x.class, op_class(op)), message: format!("[{} {:?} start {} history {}] step {}: {}", A::FLAVOUR, cfg, st.name, word_str(&word[..=k]), k, x.msg), replay: case.clone() });
+        }
+        cut = Some(k);
+        break;
+      }
       let o1 = rs[1].step(as_explicit(*op), 0, &mut v);
       let o2 = rs[2].step(as_borrowed(*op), 0, &mut v);
       run.trans(1);
-      let case = json!({"engine": "hist", "tag": "C13", "cfg": cfg, "start": st, "word": word[..=k].to_vec(), "oracles": O_RELEASE | O_SHADOW, "sync": A::SYNC, "unsync": !A::SYNC, "diff": false});
-      for x in v0 {
-        run.violation(crate::report::Violation { property: "C13".into(), signature: format!("C13:{}:{}", x.class, op_class(op)), message: format!("[{} {:?} start {} history {}] step {}: {}", A::FLAVOUR, cfg, st.name, word_str(&word[..=k]), k, x.msg), replay: case.clone() });
-      }
       match (o0, o1, o2) {
         (Some(a), Some(b), Some(c)) => {
           let key = |o: &Obs| (o.allocated, o.discarded, o.nodes.clone());
